@@ -283,6 +283,13 @@ func c13Families(tier string) []explore.Family {
 			shapes = append(shapes, c13Shape{[]int{it}, []string{long, "a" + long, long + "a"}, []string{long}})
 		}
 	}
+	// letters whose UTF-8 encoding ends in a byte that IS whitespace when read as Latin-1 (0x85 NEL, 0xA0 NBSP): à Å ą Š;
+	// and other multi-byte neighbours: trimming works on characters, never on bytes
+	wu := []string{"à", " à ", "Å\n", "\tą", "Š", " 日 ", "é ", "\n😀"}
+	for _, it := range []int{0, 2, 4, 7} {
+		shapes = append(shapes, c13Shape{[]int{it}, wu, c13W2[:1]})
+	}
+	shapes = append(shapes, c13Shape{[]int{4}, c13W2, wu}, c13Shape{[]int{5}, c13W2, wu})
 	var fams []explore.Family
 	for si, sh := range shapes {
 		sh := sh
